@@ -25,7 +25,7 @@ def EXES(tier):
 
 def cases(tier, seed):
     out = []
-    reps = 1 if tier == 'quick' else 60
+    reps = 2 if tier == 'quick' else 60
     for rep in range(reps):
         for L in range(0, 141):
             out.append(('len', L))
